@@ -103,9 +103,9 @@ type Machine struct {
 	wantWitness bool
 	mapOrder    bool
 
-	funcSteps map[*ssa.Function]int64
-	stubsUsed map[string]int
-	narrow    bool
+	funcSteps        map[*ssa.Function]int64
+	stubsUsed        map[string]int
+	narrow           bool
 	narrowViolations []string
 
 	choices      [][2]string
@@ -114,11 +114,14 @@ type Machine struct {
 	encMemo      map[*Term]encInfo
 	randCount    int
 	merges       int
+	pcVars       map[*Term]bool
+	freeForks    int
+	fnCache      map[*ssa.Function]*fnInfo
 }
 
 func NewMachine(sh *Shared, solver *Solver) *Machine {
 	return &Machine{sh: sh, prog: sh.prog, target: sh.target, sizes: sh.sizes, solver: solver,
-		funcSteps: make(map[*ssa.Function]int64), stubsUsed: make(map[string]int)}
+		funcSteps: make(map[*ssa.Function]int64), stubsUsed: make(map[string]int), fnCache: make(map[*ssa.Function]*fnInfo)}
 }
 
 func (m *Machine) resetPath(prefix []int32, maxSteps int64) {
@@ -154,6 +157,7 @@ func (m *Machine) resetPath(prefix []int32, maxSteps int64) {
 	m.placeholders = nil
 	m.encMemo = nil
 	m.randCount = 0
+	m.pcVars = nil
 }
 
 func (m *Machine) pos() string {
@@ -185,8 +189,42 @@ func (m *Machine) learn(c *Term) {
 	m.known[m.ts.Not(c)] = false
 }
 
+// markVars records the variables occurring in an asserted condition.
+func (m *Machine) markVars(c *Term) {
+	if m.pcVars == nil {
+		m.pcVars = make(map[*Term]bool)
+	}
+	seen := map[*Term]bool{}
+	var walk func(t *Term)
+	walk = func(t *Term) {
+		if seen[t] {
+			return
+		}
+		seen[t] = true
+		if t.Op == OpVar {
+			m.pcVars[t] = true
+			return
+		}
+		for _, a := range t.Args {
+			walk(a)
+		}
+	}
+	walk(c)
+}
+
+// freeBoolVar reports whether c is a plain Boolean input (or its negation)
+// that no asserted condition mentions: both outcomes are then trivially
+// feasible and no solver call is needed.
+func (m *Machine) freeBoolVar(c *Term) bool {
+	if c.Op == OpNot {
+		c = c.Args[0]
+	}
+	return c.Op == OpVar && c.Sort.K == SBool && !m.pcVars[c]
+}
+
 func (m *Machine) assumeTerm(c *Term) {
 	m.learn(c)
+	m.markVars(c)
 	m.pc = append(m.pc, c)
 	if m.solver != nil {
 		m.solver.Assert(m.ts, c)
@@ -224,6 +262,17 @@ func (m *Machine) branch(c *Term) bool {
 			return false
 		}
 		panic(fmt.Sprintf("decision prefix out of sync: got choice code %d at a branch (%s)", d, m.pos()))
+	}
+	if m.freeBoolVar(c) {
+		alt := make([]int32, len(m.taken)+1)
+		copy(alt, m.taken)
+		alt[len(m.taken)] = dFalse
+		m.pending = append(m.pending, alt)
+		m.taken = append(m.taken, dTrue)
+		m.forks++
+		m.freeForks++
+		m.assumeTerm(c)
+		return true
 	}
 	r1, _ := m.solver.Check(m.ts, c, nil)
 	if r1 == Unsat {
